@@ -944,6 +944,12 @@ func (m *metaPart) regSubQuery(w *World, st *StepRec, s int, realm, proc string,
 			errIs(wamp.ErrNoSuchSubscription)
 			return nil
 		}
+		if len(sb.members) == 0 && m.b.persistent[subKey(realm, sb.class, sb.topic)] && proc != "wamp.subscription.get" {
+			// grey zone (DESIGN 3.6): the kept subscription of an event history that
+			// nobody is subscribed to at the moment, asked for its subscribers
+			anyReply("subscribers of a history subscription without subscribers")
+			return nil
+		}
 		switch proc {
 		case "wamp.subscription.get":
 			result(fmt.Sprintf("details of subscription %d", id), func(x *wamp.Result) bool {
